@@ -232,7 +232,7 @@ func Survey(self, repo, verif string, props []string, only string, par int, outF
 		sc.Buffer(make([]byte, 1<<20), 1<<24)
 		for sc.Scan() {
 			var o MutOutcome
-			if json.Unmarshal(sc.Bytes(), &o) == nil {
+			if json.Unmarshal(sc.Bytes(), &o) == nil && o.Outcome != "stale" && o.Outcome != "error" {
 				done[fmt.Sprintf("%s:%d:%d:%s", o.File, o.Start, o.End, o.New)] = true
 			}
 		}
